@@ -32,7 +32,7 @@ ASSUMPTIONS = [
     "state of a failed top-level transaction is not compared (callers discard it); failed sub-frames are (through the caller's view)",
     "paths ending in an internal halmos error (stuck) are not reported behaviours (C10 owns them)",
 ]
-WATCHDOG_S = {"quick": 1500, "thorough": 7200}
+WATCHDOG_S = {"quick": 2400, "thorough": 10800}
 
 MANIFEST = {
     "technique": "differential testing of SEVM.run against an independent concrete reference EVM on Hypothesis-generated multi-contract programs, with symeval deciding which reported path admits each concrete input and z3 used only to propose inputs",
